@@ -428,3 +428,37 @@ func (w *World) InfoOf(f *ssa.Function) *types.Info {
 	}
 	return p.TypesInfo
 }
+
+// Dispatcher returns the function of the request core that matches the
+// request and installs the handler chain (calls QuickMatch and
+// Context.SetHandlers) — found structurally, so that splitting or renaming
+// handleHTTPRequest does not turn the dispatcher rules into alarms.
+func (w *World) Dispatcher() *ssa.Function {
+	qm, sh := w.Fn("rux", "Router.QuickMatch"), w.Fn("rux", "Context.SetHandlers")
+	var found []*ssa.Function
+	for _, f := range w.Funcs {
+		if f.Parent() != nil {
+			continue
+		}
+		q, s := false, false
+		for _, b := range f.Blocks {
+			for _, in := range b.Instrs {
+				if c, ok := in.(*ssa.Call); ok {
+					switch c.Call.StaticCallee() {
+					case qm:
+						q = true
+					case sh:
+						s = true
+					}
+				}
+			}
+		}
+		if q && s {
+			found = append(found, f)
+		}
+	}
+	if len(found) == 1 {
+		return found[0]
+	}
+	panic(anchorErr{"the dispatcher (unique function calling QuickMatch and Context.SetHandlers)"})
+}
